@@ -392,6 +392,11 @@ def _syspath():
     return [root, verif]
 
 
+import threading  # noqa: E402
+
+_IO_LOCK = threading.Lock()
+
+
 def crash_case(fmt, mode, batches, position, kill, seed, d, tag):
     """returns dict(status=..., ...)   status: ok | lost | no-flush | child-error"""
     path = os.path.join(d, f"c{tag}.{_ext(fmt)}")
@@ -400,7 +405,8 @@ def crash_case(fmt, mode, batches, position, kill, seed, d, tag):
     total = k0 + sum(batches)
     t = make_traj(n_frames=total, n_atoms=N_ATOMS, cell="ortho", seed=seed)
     if mode == "a":  # a cleanly closed file with k0 frames to append to
-        write_partition(fmt, path, t, [k0], True, True, "w")
+        with _IO_LOCK:
+            write_partition(fmt, path, t, [k0], True, True, "w")
     cls = getattr(md.formats, CLASSNAME[fmt])
     has_flush = hasattr(cls, "flush")
     if not has_flush and position != "after-write":
@@ -415,10 +421,18 @@ def crash_case(fmt, mode, batches, position, kill, seed, d, tag):
     # reference: the same frames written and closed cleanly
     ref_path = os.path.join(d, f"cref{tag}.{_ext(fmt)}")
     _rm(ref_path)
-    write_partition(fmt, ref_path, t, [total], True, True, "w")
-    ref = fields(load(fmt, ref_path, t.topology))
+    # netCDF4 / HDF5 are not thread-safe: all parent-side file I/O is serialised, only the children run concurrently
+    with _IO_LOCK:
+        write_partition(fmt, ref_path, t, [total], True, True, "w")
+        ref = fields(load(fmt, ref_path, t.topology))
+        try:
+            got = fields(load(fmt, path, t.topology))
+            err = None
+        except Exception as e:
+            err = e
     try:
-        got = fields(load(fmt, path, t.topology))
+        if err is not None:
+            raise err
     except Exception as e:
         return {"status": "lost", "reload": f"{type(e).__name__}: {str(e)[:160]}", "expected_n_frames": total, "size": os.path.getsize(path) if os.path.isfile(path) else None}
     diff = same(ref, got)
